@@ -117,7 +117,7 @@ UNIT = Unit(
     describe="mono::spec_name_for and TypeMono::ensure_instance, how a type argument is spelled inside an instance's name: the piece a (type parameter, type argument) pair contributes "
              "to a function instance's name is literal text around the parameter's name and the argument's COMPACT type text (a spec function derived from the closure's format "
              "string on every run, and the closure's body verified against it); a generic struct / enum instantiated at one argument is `name__<compact text>`; lemmas over the "
-             "derived functions: equal pieces / names only for equal type arguments. A spelling that is not injective (go::mangle::encode_ty flattens tuples without their arity) "
+             "derived functions: equal pieces / names only for equal type arguments. A spelling that is not injective (go::mangle::encode_ty: `Opt[int32]` and a type named `Opt_int32` coincide) "
              "has no injectivity lemma, so the statement fails for it",
     trusted=["ty_compact is ASSUMED injective (compact_injective: the pretty printer is out of reach); the closure body is extracted as a function of its two parameters; the rest "
              "of spec_name_for (sorting the pairs by parameter name, joining with `__`) and of ensure_instance (iterator chains) is read by pattern only — several type "
